@@ -146,7 +146,8 @@ def unsupplied_junctions(net, mg=None, slacks=None, respect_valves=True):
     mg = mg or create_nxgraph(net, respect_status_valves=respect_valves)
     if slacks is None:
         # all junctions with a fixed pressure: external grids and the flow side of circulation pumps
-        slacks = set(net.ext_grid[net.ext_grid.in_service].junction.values)
+        fixes_pressure = net.ext_grid.type.astype(str).str.contains("p").values
+        slacks = set(net.ext_grid[net.ext_grid.in_service.values & fixes_pressure].junction.values)
         for circ_pump in ("circ_pump_pressure", "circ_pump_mass"):
             if circ_pump in net and len(net[circ_pump]):
                 slacks |= set(net[circ_pump][net[circ_pump].in_service].flow_junction.values)
